@@ -1097,6 +1097,67 @@ def c08_n9(ctx):
         raise Anchor("C08-N9", "uses of RecvTransaction.delayed_nack_timers")
 
 
+@rule("C08", "C08-N10", 1, "every delayed gap check taken off the list on expiry is carried out: each path from the drain to the end of the timeout handler goes through the consumption of the drained windows by a step that asks the held-range list for their gaps - unconditionally")
+def c08_n10(ctx):
+    from core import natural_loops
+
+    f = ctx.one("C08-N10", "RecvTransaction::handle_timeout")
+    eb = ExprBuilder(ctx.prog, f)
+    clos = {c.norm: c for c in ctx.prog.closures_of(f)}
+
+    def reaches_gaps(g):
+        return any((ctx.prog.callee_of(t)[1] or ctx.prog.callee_of(t)[0] or "").endswith("Segments::gaps") for h in ctx.prog.reach([g]) for b, t in ctx.prog.by_norm[h].all_calls()) if g is not None else False
+
+    drains = []
+    for b, t in f.all_calls():
+        e = eb.call(b, t)
+        if e[0] == "call" and (callee_name(e) or "").split("::")[-1] == "drain" and e[3] and sstr(e[3][0]) == "self.delayed_nack_timers":
+            drains.append((b, t))
+    if not drains:
+        raise Anchor("C08-N10", "drain of the delayed checks in handle_timeout")
+
+    def from_drain(x, depth=0):
+        txt = expr_str(x)
+        if "::drain(" in txt or "Vec::drain(" in txt or "drain(&mut self.delayed_nack_timers" in txt:
+            return True
+        if depth < 4:
+            for p in places_in(x):
+                if re.match(r"^[A-Za-z_]\w*$", p) and p != "self":
+                    if any(from_drain(dx, depth + 1) for dx in eb.var_defs(p)):
+                        return True
+        return False
+
+    loops = natural_loops(f)
+    consumers = set()
+    for b, t in f.all_calls():
+        e = eb.call(b, t)
+        if e[0] != "call" or not e[3]:
+            continue
+        last = (callee_name(e) or "").split("::")[-1]
+        if last == "next" and from_drain(e[3][0]):
+            bodies = [bd for h, bd, bk in loops if b in bd]
+            if bodies:
+                body = min(bodies, key=len)
+                if any(f.blocks[x]["term"]["k"] == "call" and (ctx.prog.callee_of(f.blocks[x]["term"])[1] or ctx.prog.callee_of(f.blocks[x]["term"])[0] or "").endswith("Segments::gaps") for x in body):
+                    consumers.add(b)
+        elif last != "drain" and from_drain(e[3][0]) or any(from_drain(a) for a in e[3][1:2]):
+            for a in e[3]:
+                for y in walk(a):
+                    if y[0] == "agg" and y[1] == "closure" and reaches_gaps(clos.get(y[2]) or ctx.prog.by_norm.get(y[2])):
+                        consumers.add(b)
+    for i, (b, t) in enumerate(drains):
+        key = "handle_timeout:drained-checks-carried-out" + ("#%d" % (i + 1) if i else "")
+        start = t["target"]
+        r = f.reachable(start, avoid=consumers) if start is not None and start not in consumers else set()
+        leak = [x for x in r if f.blocks[x]["term"]["k"] == "return"]
+        if not consumers:
+            yield bad("C08-N10", key, at(f, t["span"]["line"]), "the windows drained from the delayed checks are never handed to Segments::gaps: the gaps they were scheduled for are not requested")
+        elif leak:
+            yield bad("C08-N10", key, at(f, t["span"]["line"]), "after the expired delayed checks were taken off the list a path reaches the end of the handler without looking for their gaps (an extra condition on carrying them out): a gap whose delay has run out is never requested")
+        else:
+            yield ok("C08-N10", key, at(f, t["span"]["line"]), {"consumed_in_blocks": sorted(consumers)})
+
+
 # ================================================================ C10-K7
 @rule("C10", "C10-K7", 1, "the sender's pending-EOF mark is cleared only by handing the EOF to the transport: nothing else (an ACK of an earlier EOF, a timer) can swallow an EOF that still has to go out", also=("C07",))
 def c10_k7(ctx):
